@@ -236,3 +236,24 @@ impl<F: Future> Future for JoinAll<F> {
         }
     }
 }
+
+/// Poll a (non-'static) future on the current thread until it completes or stalls (`None`).
+pub fn drive<T>(fut: impl Future<Output = T>, max_polls: u64) -> Option<T> {
+    let mut fut = std::pin::pin!(fut);
+    let flag = Arc::new(Flag { woken: AtomicBool::new(true), wakes: AtomicU64::new(0) });
+    let waker = Waker::from(flag.clone());
+    let mut cx = Context::from_waker(&waker);
+    let mut polls = 0;
+    loop {
+        if !flag.woken.swap(false, Ordering::SeqCst) {
+            return None;
+        }
+        if let Poll::Ready(v) = fut.as_mut().poll(&mut cx) {
+            return Some(v);
+        }
+        polls += 1;
+        if polls >= max_polls {
+            return None;
+        }
+    }
+}
